@@ -7,6 +7,8 @@ C02-c  zck_close, read mode: `return true` only on the >=1 edge of validate_file
 C02-d  hash-what-you-use pairing: the (buffer, length) pair produced by read_data in comp_read
        feeds the chunk hash, the whole-data hash and the decoder buffer unchanged; dl_write and
        write_and_verify_chunk hash exactly what they write.
+C02-f  validate_file / validate_header / validate_chunk return a positive verdict only on the equal edge of their
+       digest comparison (named exception: validate_file under has_uncompressed_source).
 C02-e  unzck: exit status 0 / kept output only through zck_close()==true with every read/write
        failure leaving to the error exit (R1 over main + gate).
 """
@@ -202,6 +204,33 @@ def run(ctx):
               if not rule.violations else rule.violations[0].msg, fn.file,
               rule.violations[0].node.line if rule.violations else fn.line,
               path=rule.violations[0].path if rule.violations else None, config=config)
+        # ---- f  the verdict functions themselves: a positive verdict only on the equal edge of the digest comparison
+        nv = 0
+        for vname, exc_field, exc_why in (
+                ('validate_file', 'has_uncompressed_source',
+                 'files with the uncompressed-source flag carry no usable whole-data digest (format: the data digest '
+                 'is over uncompressed data that is not stored); today\'s behaviour, named exception'),
+                ('validate_header', None, None), ('validate_chunk', None, None)):
+            vf = prog.need_func(vname)
+            cmp_calls = calls_of(vf, ('memcmp',))
+            ck.require(len(cmp_calls) >= 1, '%s: digest comparison not found' % vname)
+
+            def exc_edge(rule, ctx2, node, label, refined, ts, exc_field=exc_field):
+                from ..rules.common import atom_cmp
+                op, l, r = atom_cmp(node.e, label)
+                if exc_field and last_field(l) == exc_field and op == '!=' and const_value(r) == 0:
+                    ts = ts | frozenset(['gate:memcmp', 'exception'])
+                return ts
+            rule = GateRule(prog, vf, {'memcmp': Z}, P1 | POS, extra_edge=exc_edge)
+            run_rule(prog, vf, rule)
+            nv += rule.success_exits
+            ck.ob('C02-f', 'R2.gate', vname, 'digest-compare', not rule.violations,
+                  '%d positive-verdict exit(s), each on the equal edge of memcmp()%s' % (
+                      rule.success_exits, (' or under %s (%s)' % (exc_field, exc_why)) if exc_field else '')
+                  if not rule.violations else rule.violations[0].msg + ': the verdict is positive without the digests '
+                  'having been compared', vf.file, rule.violations[0].node.line if rule.violations else vf.line,
+                  path=rule.violations[0].path if rule.violations else None, config=config)
+        ck.min_instances('positive-verdict exits of the verdict functions', nv, 4)
         # ---- d
         pairing(ck, prog, 'comp_read', ('read_data', 1, None),
                 [('hash_update', 2, 3, 'check_chunk_hash'), ('hash_update', 2, 3, 'check_full_hash'),
